@@ -4,6 +4,8 @@
 Abstract actions (plain data):
   {'a':'pdu','spec':spec,'eager':bool}   a whole PDU arrives            -> Evt3/4/6/10/12/13/16
   {'a':'raw','data':bytes,'eager':bool}  a frame with unknown PDU type  -> Evt19
+  {'a':'head','spec':spec,'cut':k}       only the first k bytes of a PDU arrive (the peer pauses inside it) -> no event
+  {'a':'tail'}                           the rest of that PDU arrives   -> the event of the whole PDU
   {'a':'close','eager':bool}             the peer closes                -> Evt17
   {'a':'tick','dt':float}                time passes (ARTIM may expire) -> Evt18
   {'a':'user','pdu':spec}                user primitive given as PDU type 1,2,3,5,6,7
@@ -15,7 +17,7 @@ from . import pdugen as g
 from . import refpdu, simnet, ulmodel
 from .common import Violation, lib_frame
 
-NET = ('pdu', 'raw', 'close')
+NET = ('pdu', 'raw', 'close', 'head', 'tail')
 START = simnet.Sim.START_TIME
 
 
@@ -27,6 +29,7 @@ def predict(role, history):
     """Run the model; returns (groups, model).  Each group: dict(idx, wire, ind, closed, state, artim,
     transport)."""
     m = ulmodel.Model(role)
+    m.half = None           # PDU of which the peer has sent only the beginning so far
     now = START
     if role == 'acceptor':
         m.event(5, now)
@@ -63,12 +66,19 @@ def predict(role, history):
         if a in NET:
             if not m.transport:
                 cur.setdefault('dropped', []).append(i)
+                m.half = None
                 continue
-            if a == 'pdu':
+            if a == 'head':
+                m.half = act['spec']          # an incomplete PDU is no event
+            elif a == 'tail':
+                spec, m.half = m.half, None
+                absorb(m.event(ulmodel.PDU_EVENT[spec['t']], now, prim=spec))
+            elif a == 'pdu':
                 absorb(m.event(ulmodel.PDU_EVENT[act['spec']['t']], now, prim=act['spec']))
             elif a == 'raw':
                 absorb(m.event(19, now))
             else:
+                m.half = None
                 absorb(m.event(17, now))
         elif a == 'tick':
             now += act['dt']
@@ -92,10 +102,18 @@ def predict(role, history):
 
 def to_script(history):
     actions = []
+    rest = b''
     for act in history:
         a = act['a']
         if a == 'pdu':
             actions.append({'k': 'seg', 'data': refpdu.enc_pdu(act['spec']), 'eager': bool(act.get('eager'))})
+        elif a == 'head':
+            data = refpdu.enc_pdu(act['spec'])
+            actions.append({'k': 'seg', 'data': data[:act['cut']], 'eager': bool(act.get('eager'))})
+            rest = data[act['cut']:]
+        elif a == 'tail':
+            actions.append({'k': 'seg', 'data': rest, 'eager': bool(act.get('eager'))})
+            rest = b''
         elif a == 'raw':
             actions.append({'k': 'seg', 'data': act['data'], 'eager': bool(act.get('eager'))})
         elif a == 'close':
